@@ -109,8 +109,62 @@ def gen_case(rng, big=False):
     case = {'pupil': pupil, 'lams': lams, 'f': f, 'focal': focal, 'wf': wfk, 'stokes': stokes,
             'fseed': int(rng.integers(0, 2 ** 31))}
     add_orientation(rng, case)
+    add_nearmiss(rng, case)
     add_amplitude(rng, case)
     return add_aliasing(rng, case)
+
+
+def _perturbed(x, sign, k):
+    """the float nearest to x * (1 + sign * 2^-k) (exact whenever x has few significant bits)"""
+    return float(Fraction(x) * (1 + Fraction(sign, 2 ** k)))
+
+
+def wavelength_cache_key(lam):
+    """The key under which AgnosticOpticalElement files the instance of a wavelength (hcipy/optics/optical_element.py
+    `_get_cache_keys`, the code's own expression): wavelengths within ~1e-9 relative share one instance."""
+    return int(np.round(np.log(lam) / np.log(1 + 1e-9)))
+
+
+def noncolliding(lams):
+    seen, out = set(), []
+    for lam in lams:
+        k = wavelength_cache_key(lam)
+        if k not in seen:
+            seen.add(k); out.append(lam)
+    return out
+
+
+def add_nearmiss(rng, case, p=0.40):
+    """Near-miss class: a focal grid that is FFT-commensurate with the pupil grid for the design (wavelength, focal length) is used
+    at a relative distance 2^-k, k = 10..50, from it: (lam) one more wavelength lam0 (1 +- 2^-k) on the same propagator, (f) the
+    focal length of the propagator off by that factor, (grid) the focal grid `.scaled(1 +- 2^-k)`, (grid-axis) stretched on one
+    axis only.  Such a grid is NOT a native FFT grid (beyond the code's own |q N - round(q N)| <= 1e-10 test); treating it as one
+    evaluates the integral on the snapped grid and labels it with the supplied one (error ~ the perturbation)."""
+    fo = case['focal']
+    if fo['kind'] not in ('ffpg', 'conj', 'mfg') or fo.get('mirror') or fo.get('reversed') or rng.random() >= p:
+        return
+    k = int(rng.integers(10, 51))
+    sign = 1 if rng.random() < 0.5 else -1
+    via = ['lam', 'f', 'grid', 'grid-axis', 'zero', 'zero', 'zero'][int(rng.integers(0, 7 if fo['kind'] == 'conj' else 4))]
+    if via == 'zero':
+        # commensurate spacing, the zero 2^-k samples off the (shifted) native position: still a native FFT grid, with that shift
+        k = int(rng.integers(10, 34))
+        e = sign * 2.0 ** -k
+        fo['nudge'] = [[e, 0.0], [0.0, e], [e, e], [e, -e]][int(rng.integers(0, 4))]
+    elif via == 'lam':
+        lam = _perturbed(fo['lam'], sign, k)
+        if lam in case['lams']:
+            return
+        case['lams'] = list(case['lams']) + [lam]
+    elif via == 'f':
+        f = case['f']
+        f['a'] = _perturbed(f['a'], sign, k)
+        if f['kind'] == 'callable':
+            f['b'] = _perturbed(f['b'], sign, k)
+    else:
+        e = _perturbed(1.0, sign, k)
+        fo['stretch'] = [e, e] if via == 'grid' else ([e, 1.0] if rng.random() < 0.5 else [1.0, e])
+    case['nearmiss'] = {'via': via, 'k': k, 'sign': sign}
 
 
 def add_orientation(rng, case):
@@ -214,6 +268,22 @@ def directed():
     cases.append({'pupil': dict(asym), 'lams': [0.5], 'f': {'kind': 'const', 'a': 2.0},
                   'focal': {'kind': 'conj', 'M': [12, 10], 'f': 2.0, 'lam': 0.5, 'crop': [0, 0], 'shift': [0, 0], 'reversed': True},
                   'wf': 'scalar-stokes', 'stokes': [1.0, 0.0, 0.5, 0.0], 'fseed': 14, 'amp': [-33]})
+    # near-miss class: design-wavelength FFT focal grids re-used slightly off (wavelength, focal length, grid scale)
+    cases.append({'pupil': dict(sq), 'lams': [0.5], 'f': {'kind': 'const', 'a': 2.0},
+                  'focal': {'kind': 'conj', 'M': [24, 24], 'f': 2.0, 'lam': 0.5, 'crop': [2, 0], 'shift': [0, 1], 'nudge': [2.0 ** -24, -2.0 ** -24]},
+                  'wf': 'scalar', 'stokes': None, 'fseed': 16, 'nearmiss': {'via': 'zero', 'k': 24, 'sign': 1}})
+    for k_, via in ((18, 'lam'), (22, 'f'), (26, 'grid'), (30, 'grid-axis'), (14, 'lam'), (40, 'f')):
+        e_ = 1.0 + 2.0 ** -k_
+        c = {'pupil': dict(asym if k_ % 4 else sq), 'lams': [0.5], 'f': {'kind': 'const', 'a': 2.0},
+             'focal': {'kind': 'ffpg', 'q': 2.0, 'num_airy': None if k_ != 26 else 2.0, 'f': 2.0, 'lam': 0.5}, 'wf': 'scalar', 'stokes': None,
+             'fseed': 15, 'nearmiss': {'via': via, 'k': k_, 'sign': 1}}
+        if via == 'lam':
+            c['lams'] = [0.5, 0.5 * e_]
+        elif via == 'f':
+            c['f']['a'] = 2.0 * e_
+        else:
+            c['focal']['stretch'] = [e_, e_] if via == 'grid' else [1.0, e_]
+        cases.append(c)
     cases.append({'pupil': {'delta': [0.125, 0.125], 'dims': [6, 5], 'zero': [0.125, 0.125], 'alias': True}, 'lams': [0.5, 1.0],
                   'f': {'kind': 'const', 'a': 2.0}, 'focal': {'kind': 'ffpg', 'q': 2.0, 'num_airy': None, 'f': 2.0, 'lam': 0.5},
                   'wf': 'jones', 'stokes': None, 'fseed': 12, 'shared': True})
@@ -258,6 +328,12 @@ def build_focal(case, pupil_grid):
         if exact is not None:
             d, n, z = exact
             exact = ([-d[0], -d[1]], n, [z[0] + d[0] * (n[0] - 1), z[1] + d[1] * (n[1] - 1)])
+    if fo.get('stretch'):
+        sx, sy = fo['stretch']
+        g = g.scaled(float(sx)) if sx == sy and case['fseed'] % 2 == 0 else g.scaled(np.array([float(sx), float(sy)]))
+        if exact is not None:
+            d, n, z = exact
+            exact = ([d[0] * Fraction(sx), d[1] * Fraction(sy)], n, [z[0] * Fraction(sx), z[1] * Fraction(sy)])
     return g, exact
 
 
@@ -281,7 +357,7 @@ def _build_focal(case, pupil_grid):
             M = fo['M'][i]
             d = lf / (Fraction(case['pupil']['delta'][i]) * M)
             n = M - fo['crop'][i]
-            z = -d * (n // 2) + d * Fraction(fo['shift'][i], 2)
+            z = -d * (n // 2) + d * Fraction(fo['shift'][i], 2) + d * Fraction(fo.get('nudge', [0, 0])[i])
             delta.append(d); dims.append(n); zero.append(z)
         g = hcipy.CartesianGrid(hcipy.RegularCoords(np.array([float(d) for d in delta]), np.array(dims), np.array([float(z) for z in zero])))
         return g, (delta, dims, zero)
@@ -458,7 +534,12 @@ def oracle_case(case, observe=None):
     field = make_field(case, pupil_grid)
     kind = case['focal']['kind'] + '/' + case['wf']
     obs = {'pupil_grid': pupil_grid, 'focal_grid': focal_grid, 'exact': exact, 'prop': prop, 'per_lam': []}
+    wkeys = {}
     for lam in case['lams']:
+        # exact predicate of finding `wavelength-key-collision`: an earlier, different wavelength of this object has the same cache key
+        wk = wavelength_cache_key(lam)
+        collision = wk in wkeys and wkeys[wk] != lam
+        wkeys.setdefault(wk, lam)
         f = f_value(case['f'], lam)
         wf = make_wavefront(case, field.copy(), lam)
         e_in = wf.electric_field.copy()
@@ -494,6 +575,22 @@ def oracle_case(case, observe=None):
             lb.append(('input-intact', 'forward modified its input wavefront'))
         full = is_full_conjugate(pupil_grid, focal_grid, lam, f)
         rec = {'lam': lam, 'f': f, 'full': full, 'err': err, 'd4': d4}
+        nud = case['focal'].get('nudge')
+        if nud and any(nud) and not any(case['focal'].get('shift', [0, 0])):
+            # exact predicate of finding `fft-small-shift-dropped` (D303): FastFourierTransform skips the phase ramp of a non-zero
+            # output-grid shift when np.allclose(shift, 0), i.e. |shift| <= 1e-8 on every axis in uv units
+            try:
+                inst_ = prop.get_instance_data(pupil_grid, None, lam)
+                if type(inst_.fourier_transform).__name__ == 'FastFourierTransform':
+                    sh_ = [abs(n_ * float(d_)) for n_, d_ in zip(nud, inst_.uv_grid.delta)]
+                    if all(v_ <= 1e-8 for v_ in sh_):
+                        rec['shift_dropped'] = sh_
+                        lb = [('fft-small-shift-dropped ' + k_, w_ + ' [output-grid shift %r <= 1e-8 in uv units]' % (sh_,)) for k_, w_ in lb]
+            except Exception:
+                pass
+        if collision:
+            rec['wkey_collision'] = wkeys[wk]
+            lb = [('wavelength-key-collision ' + k_, w_ + ' [served by the cached instance of wavelength %r]' % wkeys[wk]) for k_, w_ in lb]
         if full:
             p_in, p_out = float(wf.total_power), float(out.total_power)
             rec['gain'] = p_out / p_in if p_in else None
@@ -742,6 +839,9 @@ def _compare_obj(ctx, case, obs, item, resp):
     pg, fg, prop = obs['pupil_grid'], obs['focal_grid'], obs['prop']
     kv = _kv(resp)
     lam = rec['lam']
+    if rec.get('nearmiss_band') and not setter:
+        ctx.count('skipped:obj-on-nearmiss-within-code-tolerance')
+        return
     ts = {'scalar': (), 'scalar-stokes': (), 'jones': (2,), 'matrix': (2, 2)}[case['wf']]
     nx = p['dims'][0]
     gin, gout = (pg, fg) if d == 'fwd' else (fg, pg)
@@ -821,7 +921,9 @@ def model_requests(case, obs, rng):
             lines.append('C03 ffpg %s %s %s' % (rat(fo['q']), '-' if fo['num_airy'] is None else rat(fo['num_airy']), rat(Fraction(fo['f']) * Fraction(fo['lam']))))
             plan.append(('grid', rec))
             if fo.get('mirror'):
-                lines.append('C03 mirror [%d,%d]' % tuple(fo['mirror'])); plan.append(('mirror', rec))
+                lines.append('C03 mirror [%d,%d]' % tuple(fo['mirror'])); plan.append(('mirror', rec, 'intermediate' if fo.get('stretch') else 'last'))
+            if fo.get('stretch'):
+                lines.append('C03 mirror %s' % rat_list(fo['stretch'])); plan.append(('mirror', rec))
             lines.append('C03 focal cur'); plan.append(('focal', rec))
         elif fo['kind'] == 'mfg':
             diam = fo['diam'] if isinstance(fo['diam'], list) else [fo['diam']] * 2
@@ -830,7 +932,9 @@ def model_requests(case, obs, rng):
             lines.append('C03 mkfocal %s %s %s' % (rat_list([fo['q']] * 2), rat_list([fo['num_airy']] * 2), rat_list(sr)))
             plan.append(('grid', rec))
             if fo.get('mirror'):
-                lines.append('C03 mirror [%d,%d]' % tuple(fo['mirror'])); plan.append(('mirror', rec))
+                lines.append('C03 mirror [%d,%d]' % tuple(fo['mirror'])); plan.append(('mirror', rec, 'intermediate' if fo.get('stretch') else 'last'))
+            if fo.get('stretch'):
+                lines.append('C03 mirror %s' % rat_list(fo['stretch'])); plan.append(('mirror', rec))
             lines.append('C03 focal cur'); plan.append(('focal', rec))
         elif regular:
             d, n, z = obs['exact']
@@ -871,6 +975,18 @@ def compare_model(ctx, case, obs, plan, answers):
             ctx.disagree('C03 object tie: fault while observing the running code', {'case': case, 'error': item[2]})
             continue
         ctx.traces_validated += 1
+        if rec is not None and rec.get('wkey_collision') is not None:
+            # the object serves this wavelength with the instance of another one (known finding): nothing to tie
+            if kind == 'setup':
+                ctx.boundary_skipped += 1
+                ctx.count('skipped:wavelength-key-collision')
+            continue
+        if rec is not None and rec.get('shift_dropped') is not None and kind in ('lens', 'obj', 'impulse'):
+            # values of an FFT whose small shift the code drops (finding D303): the oracle reports it, nothing to tie
+            if kind == 'lens':
+                ctx.boundary_skipped += 1
+            ctx.count('skipped:%s-on-fft-small-shift-dropped(D303)' % kind)
+            continue
         if kind == 'obj':
             if cur_grid_ok or not item[9]:
                 compare_obj(ctx, case, obs, item, resp)
@@ -898,14 +1014,14 @@ def compare_model(ctx, case, obs, plan, answers):
                     ctx.disagree('C03 focal constructor dims', {'case': case, 'impl': [int(d) for d in fg.dims], 'model': dims})
                 cur_grid_ok = False
                 continue
-            sg = case['focal'].get('mirror') or [1, 1]
+            sg = [a_ * b_ for a_, b_ in zip(case['focal'].get('mirror') or [1, 1], case['focal'].get('stretch') or [1, 1])]
             d = [float(x) * s_ for x, s_ in zip(parse_rat_list(kv['delta']), sg)]
             z = [float(x) * s_ for x, s_ in zip(parse_rat_list(kv['zero']), sg)]
             if not all(_close(a, float(b)) for a, b in zip(d, fg.delta)) or not all(_close(a, float(b), 1e-10) for a, b in zip(z, fg.zero)):
                 ctx.disagree('C03 focal constructor grid', {'case': case, 'impl': [list(map(float, fg.delta)), list(map(float, fg.zero))], 'model': [d, z]})
                 cur_grid_ok = False
         elif kind == 'mirror':
-            if not cur_grid_ok:
+            if not cur_grid_ok or (len(item) > 2 and item[2] == 'intermediate'):
                 continue
             kv = _kv(resp)
             d = [float(x) for x in parse_rat_list(kv['delta'])]
@@ -936,7 +1052,7 @@ def compare_model(ctx, case, obs, plan, answers):
                 if cls != 'other' or rec['ft'] == 'FastFourierTransform':
                     ctx.disagree('C03 mirrored uv grid accepted as FFT grid', {'case': case, 'lam': rec['lam'], 'model': cls, 'impl': rec['ft']})
             fo_ = case['focal']
-            if (fo_['kind'] == 'ffpg' and fo_['num_airy'] is None and Fraction(fo_['q']) >= 1 and not fo_.get('mirror')
+            if (fo_['kind'] == 'ffpg' and fo_['num_airy'] is None and Fraction(fo_['q']) >= 1 and not fo_.get('mirror') and not fo_.get('stretch')
                     and Fraction(rec['lam']) * Fraction(rec['f']) == Fraction(fo_['f']) * Fraction(fo_['lam'])):
                 # theorem focalFromPupil_full_conjugate: the constructor's grid (full field of view, q >= 1) is a full
                 # conjugate at the lam*f it was built for -- for the model's grid, which was just compared with the code's
@@ -944,17 +1060,38 @@ def compare_model(ctx, case, obs, plan, answers):
                 if cls != 'full':
                     ctx.disagree('C03 constructor grid not classified full (focalFromPupil_full_conjugate)',
                                  {'case': case, 'lam': rec['lam'], 'model': cls})
-            if (cls == 'full') != rec['full']:
-                ctx.disagree('C03 full-conjugate classification', {'case': case, 'lam': rec['lam'], 'model': cls, 'oracle_full': rec['full']})
-            native = bool(hcipy.is_fft_grid(uv, pg))
-            if not native and cls in ('full', 'native'):
-                # get_fft_parameters compares floats without tolerance (q < 1, dims) and then falls back to the MFT,
-                # which evaluates the same sum: recorded, not a disagreement
-                ctx.count('native-by-exact-arithmetic-but-rejected-by-float-test')
-            if native and cls == 'other':
-                ctx.disagree('C03 native-FFT-grid classification', {'case': case, 'lam': rec['lam'], 'model': cls, 'impl_is_fft_grid': bool(native)})
-            if cls == 'other' and rec['ft'] == 'FastFourierTransform':
-                ctx.disagree('C03 method selection', {'case': case, 'model': cls, 'impl': rec['ft']})
+            # near-miss class: exact slack |q N - round(q N)| per axis; `tolclass` = the class under the code's own 1e-10 test
+            slack = [float(x) for x in parse_rat_list(kv['slack'])]
+            smax = max(slack) if slack else 0.0
+            is_fft = rec['ft'] == 'FastFourierTransform'
+            band = cls == 'other' and (kv['tolclass'] != 'other' or 0.99e-10 <= smax <= 1.01e-10)
+            nm = case.get('nearmiss')
+            if nm or 0 < smax < 2.0 ** -9:
+                kb = 'k=%d..%d' % (10 * (nm['k'] // 10), 10 * (nm['k'] // 10) + 9) if nm else 'incidental'
+                ctx.count('nearmiss:%s %s %s class:%s/%s%s' % (nm['via'] if nm else '-', kb, case['focal']['kind'], cls, rec['ft'],
+                                                              ' allclose-would-accept' if cls == 'other' and kv['allclose'] != 'other' else ''))
+            if band:
+                # within the tolerance of the code's own float test: the code may treat the grid as native; not judged by the tie
+                # (the direct-sum oracle still applies at 1e-9)
+                rec['nearmiss_band'] = True
+                ctx.boundary_skipped += 1
+                ctx.count('skipped:nearmiss-within-code-tolerance(1e-10) code=%s' % rec['ft'])
+            else:
+                if cls == 'other' and smax > 0 and is_fft:
+                    ctx.disagree('C03 near-miss grid accepted as FFT grid', {'case': case, 'lam': rec['lam'], 'model': cls, 'impl': rec['ft'],
+                                                                               'exact_slack': kv['slack'], 'fft_would_evaluate_on_delta': kv['snapdelta']})
+                if (cls == 'full') != rec['full']:
+                    ctx.disagree('C03 full-conjugate classification', {'case': case, 'lam': rec['lam'], 'model': cls, 'oracle_full': rec['full']})
+                native = bool(hcipy.is_fft_grid(uv, pg))
+                if not native and cls in ('full', 'native'):
+                    # get_fft_parameters compares floats without tolerance (q < 1, dims) and then falls back to the MFT,
+                    # which evaluates the same sum: recorded, not a disagreement
+                    ctx.count('native-by-exact-arithmetic-but-rejected-by-float-test')
+                if native and cls == 'other':
+                    ctx.disagree('C03 native-FFT-grid classification', {'case': case, 'lam': rec['lam'], 'model': cls, 'impl_is_fft_grid': bool(native),
+                                                                          'exact_slack': kv['slack']})
+                if cls == 'other' and is_fft:
+                    ctx.disagree('C03 method selection', {'case': case, 'model': cls, 'impl': rec['ft'], 'exact_slack': kv['slack']})
             if cls == 'full' and rec.get('gain') is not None and not rec.get('d4'):
                 g = float(parse_rat(kv['gain']))
                 if g != 1.0 or not _close(g, rec['gain'], 1e-9):
@@ -978,6 +1115,9 @@ def compare_model(ctx, case, obs, plan, answers):
                 got = complex(np.asarray(prop.backward(hcipy.Wavefront(e, rec['lam'])).electric_field)[jf])
             real = {'FastFourierTransform': 'fft', 'MatrixFourierTransform': 'mft', 'NaiveFourierTransform': 'naive'}.get(rec['ft'], rec['ft'])
             ctx.count('lens:%s model=%s code=%s' % (d, kv['method'], real))
+            if rec.get('nearmiss_band'):
+                ctx.count('skipped:lens-on-nearmiss-within-code-tolerance')
+                continue
             if not abs(got - want) <= TOL * abs(want):
                 ctx.count('DISAGREE lens pipeline %s model=%s code=%s' % (d, kv['method'], real))
                 ctx.disagree('C03 lens pipeline (%s, model method %s, code %s)' % (d, kv['method'], real),
@@ -1000,6 +1140,9 @@ def compare_model(ctx, case, obs, plan, answers):
                 continue
             if rec.get('d4'):
                 ctx.count('skipped:impulse-on-D4-affected-sizes')
+                continue
+            if rec.get('nearmiss_band'):
+                ctx.count('skipped:impulse-on-nearmiss-within-code-tolerance')
                 continue
             _, rec, jx, jy, kf = item
             kv = _kv(resp)
@@ -1062,6 +1205,8 @@ def gen_session(rng, big=False):
                 'fseed': int(rng.integers(0, 2 ** 31))}
     else:
         case = gen_case(rng)
+        # two wavelengths that share a key of the instance cache (finding `wavelength-key-collision`) are oracle_case's subject
+        case['lams'] = noncolliding(case['lams'])
     lams = case['lams']
     ops = []
     n = int(rng.integers(3, 9))
@@ -1375,6 +1520,10 @@ def run(ctx):
                 if rec.get('raised'):
                     ctx.count('raised')
                     continue
+                if rec.get('wkey_collision') is not None:
+                    ctx.count('wavelength-key-collision err%s1e-9' % ('<=' if rec['err'] <= TOL else '>'))
+                if rec.get('shift_dropped') is not None:
+                    ctx.count('fft-small-shift-dropped(D303) err%s1e-9' % ('<=' if rec['err'] <= TOL else '>'))
                 ctx.count('ft:' + rec['ft'])
                 ctx.count('full-conjugate' if rec['full'] else 'not-full')
             ctx.count('pupil:' + ('square' if case['pupil']['dims'][0] == case['pupil']['dims'][1] else 'non-square'))
